@@ -11,6 +11,10 @@ use crate::{
 mod constants {
     pub const ICD_VERSION: u16 = 0;
     pub const ICED_HEADER_SIZE: usize = 19;
+    /// fixed part of a layer record behind the title
+    pub const LAYER_HEADER_SIZE: usize = 41;
+    /// size and scale in front of the picture data of an image layer
+    pub const SIXEL_HEADER_SIZE: usize = 16;
     pub mod layer {
         pub const IS_VISIBLE: u32 = 0b0000_0001;
         pub const POS_LOCK: u32 = 0b0000_0010;
@@ -413,7 +417,7 @@ impl OutputFormat for IcyDraw {
                                         match font_slot.parse() {
                                             Ok(font_slot) => {
                                                 let mut o: usize = 0;
-                                                let (font_name, size) = read_utf8_encoded_string(&bytes[o..]);
+                                                let (font_name, size) = read_utf8_encoded_string(&bytes[o..])?;
                                                 o += size;
                                                 let font = BitFont::from_bytes(font_name, &bytes[o..])?;
                                                 result.set_font(font_slot, font);
@@ -508,10 +512,14 @@ impl OutputFormat for IcyDraw {
                                     }
                                     let mut o: usize = 0;
 
-                                    let (title, size) = read_utf8_encoded_string(&bytes[o..]);
+                                    let (title, size) = read_utf8_encoded_string(&bytes[o..])?;
                                     let mut layer = Layer::new(title, (0, 0));
 
                                     o += size;
+                                    // role, 4 unused bytes, mode, color, flags, transparency, offset, size, font page, data length
+                                    if bytes.len() < o + constants::LAYER_HEADER_SIZE {
+                                        return Err(LoadingError::FileTooShort.into());
+                                    }
                                     let role = bytes[o];
                                     o += 1;
                                     if role == 1 {
@@ -572,6 +580,9 @@ impl OutputFormat for IcyDraw {
                                     o += 8;
 
                                     if role == 1 {
+                                        if bytes.len() < o + constants::SIXEL_HEADER_SIZE {
+                                            return Err(LoadingError::FileTooShort.into());
+                                        }
                                         let width: i32 = u32::from_le_bytes(bytes[o..(o + 4)].try_into().unwrap()) as i32;
                                         o += 4;
                                         let height: i32 = u32::from_le_bytes(bytes[o..(o + 4)].try_into().unwrap()) as i32;
@@ -586,8 +597,8 @@ impl OutputFormat for IcyDraw {
                                             .push(Sixel::from_data((width, height), vert_scale, horiz_scale, bytes[o..].to_vec()));
                                         result.layers.push(layer);
                                     } else {
-                                        if bytes.len() < o + length {
-                                            return Err(anyhow::anyhow!("data length out ouf bounds {} data lenth: {}", o + length, bytes.len()));
+                                        if bytes.len() - o < length {
+                                            return Err(anyhow::anyhow!("data length out ouf bounds {} data lenth: {}", o.saturating_add(length), bytes.len()));
                                         }
                                         for y in 0..height {
                                             if o >= bytes.len() {
@@ -618,7 +629,7 @@ impl OutputFormat for IcyDraw {
                                                 }
 
                                                 let (ch, fg, bg, font_page) = if is_short {
-                                                    if o + 3 > bytes.len() {
+                                                    if o + 4 > bytes.len() {
                                                         return Err(anyhow::anyhow!("data length out ouf bounds"));
                                                     }
 
@@ -699,9 +710,15 @@ fn get_invisible_line_length(layer: &Layer, y: i32) -> i32 {
     length
 }
 
-fn read_utf8_encoded_string(data: &[u8]) -> (String, usize) {
+fn read_utf8_encoded_string(data: &[u8]) -> EngineResult<(String, usize)> {
+    if data.len() < 4 {
+        return Err(LoadingError::FileTooShort.into());
+    }
     let size = u32::from_le_bytes(data[0..4].try_into().unwrap()) as usize;
-    (String::from_utf8_lossy(&data[4..(4 + size)]).into_owned(), size + 4)
+    if data.len() - 4 < size {
+        return Err(LoadingError::FileTooShort.into());
+    }
+    Ok((String::from_utf8_lossy(&data[4..(4 + size)]).into_owned(), size + 4))
 }
 
 fn write_utf8_encoded_string(data: &mut Vec<u8>, s: &str) {
